@@ -146,11 +146,12 @@ class C18(Prop):
             op = "%s s=%s" % (which, hx(s))
         else:
             K = rng.choice([1, 2, 3, 4, 4, 5, 18, 20, 26, 29, rng.randrange(1, 30)])
+            if L < 60 and rng.random() < 0.04: K = rng.choice([100, 128, 129, 200, 254, 255])     # large digital alphabets (ESL_DSQ is 8 bit)
             codes = self.rand_codes(rng, L, K)
             if which in ("xshuffledp", "xmarkov0", "xmarkov1"):
-                if rng.random() < 0.08 and L:
+                if rng.random() < 0.08 and L and K < 254:
                     codes[rng.randrange(L)] = rng.choice([K, K + 1, 254])
-                if rng.random() < 0.2: K = K + rng.randrange(0, 4)          # K larger than the residues used (vertices without edges)
+                if rng.random() < 0.2: K = min(255, K + rng.randrange(0, 4))          # K larger than the residues used (vertices without edges); K <= 255: ESL_DSQ loop counters are 8 bit
                 op = "%s s=%s K=%d" % (which, hx(codes), K)
             else:
                 op = "%s s=%s" % (which, hx(codes))
